@@ -238,6 +238,15 @@ def fold(e, env=None):
                         "any": any, "all": all}[ftxt](*args)
             except Exception as ex:  # noqa
                 raise NotConst("builtin failed: %s" % ex)
+        if isinstance(f, ast.Attribute) and f.attr in ("search", "match", "fullmatch") and len(e.args) == 1:
+            try:
+                recv = fold(f.value, env)
+            except NotConst:
+                recv = None
+            if isinstance(recv, Regex):
+                arg = fold(e.args[0], env)
+                if isinstance(arg, str):
+                    return getattr(re, f.attr)(recv.pattern, arg, recv.flags) is not None
         if isinstance(f, ast.Attribute) and f.attr in SAFE_STR_METHODS:
             recv = fold(f.value, env)
             if isinstance(recv, str):
@@ -251,8 +260,106 @@ def fold(e, env=None):
             if isinstance(recv, dict):
                 args = [fold(a, env) for a in e.args]
                 return recv.get(*args)
+        if isinstance(f, ast.Name):
+            # a pure table-building helper of the module (straight-line assignments, +=, if, for, return)
+            try:
+                fn = env("def " + f.id)
+            except NotConst:
+                fn = None
+            if isinstance(fn, FuncRef):
+                args = [fold(a, env) for a in e.args]
+                kwargs = {k.arg: fold(k.value, env) for k in e.keywords if k.arg}
+                return _interpret(fn, args, kwargs)
         raise NotConst("call %s" % ftxt)
     raise NotConst(type(e).__name__)
+
+
+class FuncRef(object):
+    def __init__(self, node, env):
+        self.node, self.env = node, env
+
+
+class _Return(Exception):
+    def __init__(self, value):
+        self.value = value
+
+
+def _interpret(fn, args, kwargs, _depth=[0]):
+    node = fn.node
+    a = node.args
+    if a.vararg or a.kwarg or a.kwonlyargs or getattr(a, "posonlyargs", []):
+        raise NotConst("signature of %s" % node.name)
+    params = [x.arg for x in a.args]
+    if len(args) > len(params):
+        raise NotConst("arity")
+    local = dict(zip(params, args))
+    for k, v in kwargs.items():
+        if k not in params or k in local:
+            raise NotConst("keyword %s" % k)
+        local[k] = v
+    for p_, d in zip(params[len(params) - len(a.defaults):], a.defaults):
+        if p_ not in local:
+            local[p_] = fold(d, fn.env)
+    if any(p_ not in local for p_ in params):
+        raise NotConst("missing argument")
+
+    def env(name):
+        if name in local:
+            return local[name]
+        return fn.env(name)
+    steps = [0]
+
+    def run(stmts):
+        for st in stmts:
+            steps[0] += 1
+            if steps[0] > 5000:
+                raise NotConst("too many steps")
+            if isinstance(st, ast.Expr) and isinstance(st.value, ast.Constant):
+                continue
+            if isinstance(st, ast.Pass):
+                continue
+            if isinstance(st, ast.Return):
+                raise _Return(None if st.value is None else fold(st.value, env))
+            if isinstance(st, ast.Assign) and len(st.targets) == 1:
+                _bind_target(st.targets[0], fold(st.value, env), local)
+                continue
+            if isinstance(st, ast.AugAssign) and isinstance(st.target, ast.Name) and isinstance(st.op, ast.Add):
+                cur = env(st.target.id)
+                val = fold(st.value, env)
+                try:
+                    local[st.target.id] = cur + (type(cur)(val) if isinstance(cur, (list, tuple)) else val)
+                except Exception as ex:  # noqa
+                    raise NotConst("+=: %s" % ex)
+                continue
+            if isinstance(st, ast.If):
+                run(st.body if fold(st.test, env) else st.orelse)
+                continue
+            if isinstance(st, ast.For) and not st.orelse:
+                for v in fold(st.iter, env):
+                    _bind_target(st.target, v, local)
+                    run(st.body)
+                continue
+            if isinstance(st, ast.Expr) and isinstance(st.value, ast.Call) and isinstance(st.value.func, ast.Attribute) \
+                    and st.value.func.attr in ("append", "extend") and isinstance(st.value.func.value, ast.Name) \
+                    and st.value.func.value.id in local and isinstance(local[st.value.func.value.id], list) and len(st.value.args) == 1:
+                v = fold(st.value.args[0], env)
+                if st.value.func.attr == "append":
+                    local[st.value.func.value.id] = local[st.value.func.value.id] + [v]
+                else:
+                    local[st.value.func.value.id] = local[st.value.func.value.id] + list(v)
+                continue
+            raise NotConst("statement %s in %s" % (type(st).__name__, node.name))
+    _depth[0] += 1
+    try:
+        if _depth[0] > 12:
+            raise NotConst("call depth")
+        try:
+            run(node.body)
+        except _Return as r:
+            return r.value
+        return None
+    finally:
+        _depth[0] -= 1
 
 
 def _bind_target(t, value, bind):
@@ -289,6 +396,11 @@ def module_env(project, modname):
                 raise NotConst("cyclic %s" % name)
             return cache[key]
         mod = project.modules.get(modname)
+        if name.startswith("def "):
+            fi = mod.functions.get(name[4:]) if mod else None
+            if fi is None or fi.node.decorator_list:
+                raise NotConst("no function %s" % name[4:])
+            return FuncRef(fi.node, module_env(project, modname))
         target_mod, target_name = mod, name
         if "." in name:
             head, _, rest = name.partition(".")
